@@ -77,7 +77,7 @@ var valTemplates = func() []valTemplate {
 		t("UniqueOperationNames", "dup-operation", `There can be only one operation named "`),
 		t("UniqueVariableNames", "dup-variable", `There can be only one variable named "`),
 		t("ValuesOfCorrectType", "null-for-non-null", `Expected value of type ".*", found null\.`),
-		t("ValuesOfCorrectType", "expected-found", `Expected value of type ".*", found [^n]`),
+		t("ValuesOfCorrectType", "expected-found", `Expected value of type ".*", found .`),
 		t("ValuesOfCorrectType", "int-range", `Int cannot represent non 32-bit signed integer value: `),
 		t("ValuesOfCorrectType", "int-non-integer", `Int cannot represent non-integer value: `),
 		t("ValuesOfCorrectType", "string", `String cannot represent a non string value: `),
